@@ -667,12 +667,29 @@ class SimFS:
 FS = SimFS()
 
 
+def _fs_op(name, path):
+    """Every mutating file-system operation is a possible crash point: die just before the k-th one."""
+    sim = Sim.current
+    if sim is None or sim.crash_op is None:
+        return
+    k = sim.ordinal("fs_op")
+    if k == sim.crash_op:
+        sim.fired["crash_write"] += 1
+        sim.event("crash_before_op", name, _real_os.path.basename(str(path)), k)
+        raise SimCrash("killed before file-system operation %d (%s)" % (k, name))
+
+
 class _SimWriter(io.StringIO):
     def __init__(self, path, keep=False):
         super().__init__()
         self._path = path
         if not (keep and path in FS.files):
             FS.files[path] = b""
+
+    def close(self):
+        if not self.closed:
+            _fs_op("close", self._path)
+        super().close()
 
     def write(self, s):
         sim = Sim.current
@@ -704,9 +721,11 @@ def sim_open(file, mode="r", *a, **kw):
     if "x" in mode and p in FS.files:
         raise FileExistsError(errno.EEXIST, "File exists (simulated)", p)
     if "a" in mode:
+        _fs_op("open_append", p)
         w = _SimWriter(p, keep=True)
         return w
     if "w" in mode or "x" in mode:
+        _fs_op("open_write", p)
         if sim is not None and sim.crash_open is not None:
             k = sim.ordinal("open_w")
             if k == sim.crash_open:
@@ -799,6 +818,7 @@ class _SimOs(types.ModuleType):
     def replace(src, dst):
         if FS.is_sim(src) or FS.is_sim(dst):
             s, d = FS.norm(src), FS.norm(dst)
+            _fs_op("replace", d)
             FS.files[d] = FS.files.pop(s)
             return
         return _real_os.replace(src, dst)
@@ -808,6 +828,7 @@ class _SimOs(types.ModuleType):
     @staticmethod
     def remove(p):
         if FS.is_sim(p):
+            _fs_op("remove", p)
             FS.files.pop(FS.norm(p))
             return
         return _real_os.remove(p)
